@@ -121,6 +121,8 @@ class TermEngine(Engine):
                     return r
                 return uf("pow", z3.RealSort(), A, B)
             raise Unsupported("scalar operator %s" % type(op).__name__)
+        if isinstance(op, ast.Mult) and isinstance(a, list) and all(isinstance(x, (int, float)) for x in a) and is_z3(b) and not is_arr(b):
+            return uf("list-repeat[%r]" % (a,), Arr, b)  # [c] * n with a symbolic length
         names = {ast.Add: "add", ast.Sub: "sub", ast.Mult: "mul", ast.Div: "div", ast.MatMult: "matmul", ast.Pow: "apow"}
         n = names.get(type(op))
         if n is None:
